@@ -87,7 +87,10 @@ func v15Scalar(name string) map[string]interface{} { return v15Type("SCALAR", na
 func VerifIntrospect() {
 	shape := v15Shapes[verifChoice("shape", verifParam("shapes", len(v15Shapes)))]
 	argShape := v15Shapes[verifChoice("argshape", 4)]
-	defKind := verifChoice("default", 4) // 0 none, 1 Int literal, 2 String literal, 3 list literal
+	defKind := verifChoice("default", 6) // 0 none, 1 Int literal, 2 String literal, 3 list literal, 4 object literal, 5 number for a custom scalar
+	if defKind >= 3 && argShape != "" {
+		verifAssume(false) // these defaults fix the argument's type themselves
+	}
 	deprecated := verifChoice("deprecated", 2) == 1
 	dirArgs := verifChoice("dirargs", 2)
 	descr := []string{"", "about f"}[verifChoice("descr", 2)]
@@ -110,13 +113,23 @@ func VerifIntrospect() {
 		argLeaf = "String"
 		argShape = "L"
 		argDef, wantDefault = `["a","b"]`, `["a","b"]`
+	case 4:
+		// an input object literal
+		argLeaf = "IN"
+		argShape = ""
+		argDef, wantDefault = `{x: 5, y: "t"}`, `{x:5,y:"t"}`
+	case 5:
+		// a number given for a custom scalar
+		argLeaf = "S"
+		argShape = ""
+		argDef, wantDefault = `30`, `30`
 	}
 	args := []interface{}{v15InputValue("a", argShape, argLeaf, argDef)}
 
 	o := v15Type("OBJECT", "O")
 	o["fields"] = []interface{}{
 		v15Field("f", shape, "Int", args, deprecated, descr),
-		v15Field("e", "", "E", []interface{}{}, false, ""),
+		v15Field("e", "", "E", []interface{}{v15InputValue("order", "", "E", "A")}, false, ""),
 		v15Field("s", "", "S", []interface{}{}, false, ""),
 	}
 	o["interfaces"] = []interface{}{v15TypeRef("", "I"), v15TypeRef("", "I2")}
@@ -124,12 +137,12 @@ func VerifIntrospect() {
 	p["fields"] = []interface{}{v15Field("g", "N", "Int", []interface{}{}, false, "")}
 	p["interfaces"] = []interface{}{}
 	i := v15Type("INTERFACE", "I")
-	i["fields"] = []interface{}{v15Field("e", "", "E", []interface{}{}, false, "")}
+	i["fields"] = []interface{}{v15Field("e", "", "E", []interface{}{v15InputValue("order", "", "E", "A")}, false, "")}
 	i["possibleTypes"] = []interface{}{v15TypeRef("", "O")}
 	i["interfaces"] = []interface{}{}
 	// an interface that implements another interface
 	i2 := v15Type("INTERFACE", "I2")
-	i2["fields"] = []interface{}{v15Field("e", "", "E", []interface{}{}, false, ""), v15Field("s", "", "S", []interface{}{}, false, "")}
+	i2["fields"] = []interface{}{v15Field("e", "", "E", []interface{}{v15InputValue("order", "", "E", "A")}, false, ""), v15Field("s", "", "S", []interface{}{}, false, "")}
 	i2["interfaces"] = []interface{}{v15TypeRef("", "I")}
 	i2["possibleTypes"] = []interface{}{v15TypeRef("", "O")}
 	u := v15Type("UNION", "U")
@@ -227,6 +240,12 @@ func VerifIntrospect() {
 		verifAssert(got.Types["E"].EnumValues.ForName("B").Directives.ForName("deprecated") != nil, "enum value deprecations are reproduced")
 	}
 	verifAssert(len(O.Interfaces) == 2 && O.Interfaces[0] == "I" && O.Interfaces[1] == "I2", "interface implementations are reproduced")
+	for _, tn := range []string{"O", "I", "I2"} {
+		if td := got.Types[tn]; td != nil && td.Fields.ForName("e") != nil {
+			ea := td.Fields.ForName("e").Arguments.ForName("order")
+			verifAssert(ea != nil && ea.DefaultValue != nil && ea.DefaultValue.Kind == ast.EnumValue && ea.DefaultValue.String() == "A", "an enum-typed argument default is an enum value, on objects and on interfaces: "+tn)
+		}
+	}
 	I2 := got.Types["I2"]
 	verifAssert(I2 != nil && I2.Kind == ast.Interface && len(I2.Interfaces) == 1 && I2.Interfaces[0] == "I", "an interface implementing an interface keeps its implements clause")
 	U := got.Types["U"]
